@@ -404,6 +404,12 @@ def execute(mat, ctx):
                 # other path spellings of a present stem are not keys either (iteration never yields them)
                 absent += [("/" + stem, "path-spelling-of-a-stem"), ("//" + stem, "path-spelling-of-a-stem"), ("./" + stem, "path-spelling-of-a-stem"),
                            (stem + "/", "path-spelling-of-a-stem"), ("sub/../" + stem, "path-spelling-of-a-stem")]
+            for stem in list(expect)[:4]:
+                # the *file name* of a present plasmid is not a key (iteration yields stems), whatever extension is appended
+                for e in exts:
+                    fn = "%s.%s" % (stem, e)
+                    if fn not in expect and fn not in optional:
+                        absent.append((fn, "file-name-of-a-present-stem"))
             absent += [("*", "wildcard-key"), ("?" * 7, "wildcard-key")]
             absent += [("sub", "sub-directory"), ("dir", "sub-directory"), ("dir.gb", "sub-directory"), ("README", "junk-file"), ("notes", "junk-file"),
                        ("inner", "file-in-sub-directory"), ("sub/inner", "path-into-sub-directory"), ("dir.gb/deep", "path-into-sub-directory"),
